@@ -94,6 +94,31 @@ func Sum(m []byte) [32]byte {
 	return out
 }
 
+// SumFrom finishes a message of which a prefix has already been absorbed: v is the chaining value after the whole
+// blocks of the prefix, pending its bytes not yet compressed (fewer than 64), total the byte length of the prefix,
+// more the rest of the message. The standard's padding carries the bit length of prefix || more.
+func SumFrom(v [8]uint32, pending []byte, total uint64, more []byte) [32]byte {
+	l := (total + uint64(len(more))) * 8
+	p := append(append(append([]byte{}, pending...), more...), 0x80)
+	for len(p)%64 != 56 {
+		p = append(p, 0)
+	}
+	var lb [8]byte
+	binary.BigEndian.PutUint64(lb[:], l)
+	p = append(p, lb[:]...)
+	for i := 0; i < len(p); i += 64 {
+		Compress(&v, p[i:i+64])
+	}
+	var out [32]byte
+	for i, x := range v {
+		binary.BigEndian.PutUint32(out[4*i:], x)
+	}
+	return out
+}
+
+// IV is the initial chaining value.
+func IV() [8]uint32 { return iv }
+
 // Sum2 hashes the concatenation of its arguments.
 func SumParts(parts ...[]byte) []byte {
 	var all []byte
